@@ -560,6 +560,11 @@ def check_property(prop, tier, only=None, keep=False, seed=0):
             h["short"] = name
             h["symtab"] = os.path.join(workdir, name + ".symtab.out")
             shutil.copy(h["goto_file"], h["symtab"])
+            pm = h["goto_file"].replace(".symtab.out", ".pretty_name_map.json")
+            h["pretty_map"] = None
+            if os.path.exists(pm):
+                h["pretty_map"] = os.path.join(workdir, name + ".pretty.json")
+                shutil.copy(pm, h["pretty_map"])
             selected.append(h)
     if not selected:
         log(f"[{prop}] no harness selected")
@@ -590,9 +595,16 @@ def check_property(prop, tier, only=None, keep=False, seed=0):
         rec["unwindset"] = uws
         rec["loops"] = len(loops)
         fns = list_functions(gb)
-        eg = sorted(f for f in fns if "embedded_graphics" in f)
+        pretty = {}
+        if h.get("pretty_map"):
+            try:
+                with open(h["pretty_map"]) as f:
+                    pretty = {k: v for k, v in json.load(f).items() if isinstance(v, str)}
+            except Exception:
+                pretty = {}
+        eg = sorted({pretty.get(f, f) for f in fns if "embedded_graphics" in f or "embedded_graphics" in pretty.get(f, "")})
         rec["functions_encoded_count"] = len(eg)
-        rec["functions_encoded"] = eg[:40]
+        rec["functions_encoded"] = [x[:160] for x in eg[:60]]
         held = pool.acquire(ru["slots"])
         try:
             res = run_cbmc(gb, rec["unwind"], uws, ru["timeout"], ru["mem_gb"])
@@ -624,7 +636,9 @@ def check_property(prop, tier, only=None, keep=False, seed=0):
                 if "vals" not in fl:
                     fl["vals"] = None
         if not keep:
-            for f in (gb, h["symtab"]):
+            for f in (gb, h["symtab"], h.get("pretty_map")):
+                if not f:
+                    continue
                 try:
                     os.unlink(f)
                 except OSError:
